@@ -109,6 +109,8 @@ theorem inv_cases (t : Tags) (h : Inv t) :
 theorem remove_general (t : Tags) (h : Inv t) (n : Nat) :
     ∃ r t', removeTag t n = .ok (r, t') ∧ Inv t' ∧
       (noInnerEmpty (parse t.params) = true →
+        parse t'.params = (parse t.params).eraseP (fun e => e.num.toNat == n)) ∧
+      ((∃ a, (visible (offsets 0 (parse t.params))).find? (fun a => a.num.toNat == n) = some a) →
         parse t'.params = (parse t.params).eraseP (fun e => e.num.toNat == n)) := by
   obtain ⟨es, hes, rfl, hpe⟩ := inv_cases t h
   unfold removeTag findTag
@@ -116,7 +118,7 @@ theorem remove_general (t : Tags) (h : Inv t) (n : Nat) :
   rw [reported_encode es hes, hpe]
   cases es with
   | nil =>
-    exact ⟨-EINVAL, _, by simp, h, fun _ => by simp [encode, parse, parseF]⟩
+    exact ⟨-EINVAL, _, by simp, h, fun _ => by simp [encode, parse, parseF], fun _ => by simp [encode, parse, parseF]⟩
   | cons e u =>
     simp only [Outcome.bind_ok]
     have hpred : (fun a : ElemAt => a.num.toNat == n % 256 && decide (n < 256)) = (fun a => (fun x : UInt8 => x.toNat == n) a.num) := by
@@ -126,35 +128,39 @@ theorem remove_general (t : Tags) (h : Inv t) (n : Nat) :
     simp only [List.length_nil, List.nil_append] at hsp
     cases hf : (visible (offsets 0 (e :: u))).find? (fun a => (fun x : UInt8 => x.toNat == n) a.num) with
     | none =>
-      refine ⟨0, _, rfl, h, fun hne => ?_⟩
-      rw [visible_offsets 0 _ hne] at hf
-      rw [hf] at hsp
-      simp only [hpe]; exact hsp.symm
+      refine ⟨0, _, rfl, h, fun hne => ?_, fun hex => ?_⟩
+      · rw [visible_offsets 0 _ hne] at hf
+        rw [hf] at hsp
+        simp only [hpe]; exact hsp.symm
+      · obtain ⟨a, ha⟩ := hex
+        first
+          | cases ha
+          | (rw [hpe, hf] at ha; cases ha)
     | some a =>
       have hfull := (visible_prefix (offsets 0 (e :: u))).find?_eq_some hf
       rw [hfull] at hsp
       obtain ⟨hbytes, hbound⟩ := hsp
       have hok : bodiesOk ((e :: u).eraseP (fun e => (fun x : UInt8 => x.toNat == n) e.num)) :=
         fun x hx => hes x (List.mem_of_mem_eraseP hx)
-      refine ⟨0, ⟨(encode (e :: u)).length - (2 + a.len), (encode (e :: u)).take a.off ++ (encode (e :: u)).drop (a.off + 2 + a.len)⟩, rfl, ⟨?_, ?_⟩, fun _ => ?_⟩
+      have hres : parse ((encode (e :: u)).take a.off ++ (encode (e :: u)).drop (a.off + 2 + a.len))
+          = (e :: u).eraseP (fun e => e.num.toNat == n) := by rw [hbytes, parse_encode _ hok]
+      refine ⟨0, ⟨(encode (e :: u)).length - (2 + a.len), (encode (e :: u)).take a.off ++ (encode (e :: u)).drop (a.off + 2 + a.len)⟩, rfl, ⟨?_, ?_⟩, fun _ => hres, fun _ => hres⟩
       · simp only [List.length_append, List.length_take, List.length_drop]
         omega
       · show wf ((encode (e :: u)).take a.off ++ (encode (e :: u)).drop (a.off + 2 + a.len)) = true
         rw [hbytes]; exact wf_encode _ hok
-      · show parse ((encode (e :: u)).take a.off ++ (encode (e :: u)).drop (a.off + 2 + a.len)) = _
-        rw [hbytes, parse_encode _ hok]
 
 /-- **C05 (remove)** with no inner empty element, removing deletes exactly the first element
 with that number and is a no-op when it is absent; the invariant holds regardless -/
 theorem C05_remove (t : Tags) (h : Inv t) (hne : noInnerEmpty (parse t.params) = true) (n : Nat) :
     ∃ r t', removeTag t n = .ok (r, t') ∧ Inv t' ∧
       parse t'.params = (parse t.params).eraseP (fun e => e.num.toNat == n) := by
-  obtain ⟨r, t', h1, h2, h3⟩ := remove_general t h n
+  obtain ⟨r, t', h1, h2, h3, _⟩ := remove_general t h n
   exact ⟨r, t', h1, h2, h3 hne⟩
 
 theorem C05_remove_wf (t : Tags) (h : Inv t) (n : Nat) :
     ∃ r t', removeTag t n = .ok (r, t') ∧ Inv t' := by
-  obtain ⟨r, t', h1, h2, _⟩ := remove_general t h n
+  obtain ⟨r, t', h1, h2, _, _⟩ := remove_general t h n
   exact ⟨r, t', h1, h2⟩
 
 /-- on a non-empty well-formed list the model's remove reports success -/
@@ -196,19 +202,44 @@ theorem C05_set (t : Tags) (h : Inv t) (hne : noInnerEmpty (parse t.params) = tr
     (hd : d.length ≤ 255) :
     ∃ t', setTag t n d = .ok (0, t') ∧ Inv t' ∧
       parse t'.params = (parse t.params).eraseP (fun e => e.num.toNat == n) ++ [⟨UInt8.ofNat n, d⟩] := by
+  obtain ⟨t1, hadd, hinv1, hparams1, hparse1⟩ := C05_add t h n d hd
   unfold setTag
-  by_cases h0 : t.length = 0
-  · have hnil : t.params = [] := List.eq_nil_of_length_eq_zero (by rw [← h.1]; exact h0)
-    obtain ⟨t', h1, h2, _, h4⟩ := C05_add t h n d hd
-    refine ⟨t', by simp [h0, h1], h2, ?_⟩
-    rw [h4, hnil]; simp [parse, parseF]
-  · simp only [h0, ne_eq, not_false_eq_true, if_true]
-    obtain ⟨r, t1, hr, hinv1, hparse1⟩ := C05_remove t h hne n
-    have hr0 : r = 0 := remove_ret_zero t h h0 n r t1 hr
+  -- was the tag present?
+  by_cases hc : 0 < (parse t.params).countP (fun e => e.num.toNat == n)
+  · -- present: the list is not empty, the count is positive, the first occurrence is removed after the add
+    have h0 : t.length ≠ 0 := by
+      intro hz
+      have : t.params = [] := List.eq_nil_of_length_eq_zero (by rw [← h.1]; exact hz)
+      rw [this] at hc; simp [parse, parseF] at hc
+    have hchk := C05_check t h hne n
+    simp only [h0, ne_eq, not_false_eq_true, if_true, hchk, Outcome.bind_ok, hadd]
+    have hpos : decide (((List.countP (fun e => e.num.toNat == n) (parse t.params) : Nat) : Int) > 0) = true := by
+      simp only [decide_eq_true_eq]; exact_mod_cast hc
+    simp only [Outcome.pure_eq, Outcome.bind_ok, hpos, if_true]
+    obtain ⟨r, t2, hrem, hinv2, _, hfound⟩ := remove_general t1 hinv1 n
+    have hr0 : r = 0 := by
+      apply remove_ret_zero t1 hinv1 _ n r t2 hrem
+      intro hz
+      have : t1.params = [] := List.eq_nil_of_length_eq_zero (by rw [← hinv1.1]; exact hz)
+      rw [hparams1] at this
+      simp [encodeElem] at this
     subst hr0
-    obtain ⟨t', h1, h2, _, h4⟩ := C05_add t1 hinv1 n d hd
-    refine ⟨t', by simp [hr, h1], h2, ?_⟩
-    rw [h4, hparse1]
+    refine ⟨t2, hrem, hinv2, ?_⟩
+    rw [hfound ?_, hparse1, eraseP_append_of_countP _ _ _ hc]
+    -- the old occurrence is visible to the iterator
+    rw [hparse1]
+    obtain ⟨a, ha⟩ := find_offsets_of_countP (fun x : UInt8 => x.toNat == n) 0 (parse t.params) hc
+    exact ⟨a, (offsets_prefix_visible_append 0 _ _ hne).find?_eq_some ha⟩
+  · -- absent: nothing to remove
+    have hc0 : (parse t.params).countP (fun e => e.num.toNat == n) = 0 := by omega
+    have hhad : (if t.length ≠ 0 then (do let c ← checkTag t n; pure (decide (c > 0))) else (pure false : Outcome Bool)) = .ok false := by
+      by_cases h0 : t.length = 0
+      · simp [h0]
+      · simp only [h0, ne_eq, not_false_eq_true, if_true, C05_check t h hne n, Outcome.bind_ok, hc0]
+        rfl
+    rw [hhad]
+    simp only [Outcome.bind_ok, hadd, Bool.false_eq_true, if_false]
+    exact ⟨t1, rfl, hinv1, by rw [hparse1, eraseP_of_countP_zero _ _ hc0]⟩
 
 /-! ### every reachable state -/
 
@@ -220,6 +251,32 @@ def runOps : Tags → List TagOp → Outcome Tags
     | .err c => .err c
     | .fault f => .fault f
 
+theorem checkTag_total (t : Tags) (h : Inv t) (n : Nat) : ∃ c, checkTag t n = .ok c := by
+  obtain ⟨es, hes, rfl, hpe⟩ := inv_cases t h
+  simp only [checkTag, List.take_length]
+  rw [reported_encode es hes]
+  cases es with
+  | nil => exact ⟨0, by simp [encode]⟩
+  | cons e u =>
+    have hlen : (encode (e :: u)).length ≠ 0 := by rw [encode_cons]; simp [encodeElem]
+    exact ⟨((visible (offsets 0 (e :: u))).countP (fun e => e.num.toNat == n % 256 && decide (n < 256)) : Nat), by simp [hlen]⟩
+
+/-- the setters keep the invariant on every well-formed list (no assumption on empty elements) -/
+theorem set_inv (t : Tags) (h : Inv t) (n : Nat) (d : Bytes) : ∃ r t', setTag t n d = .ok (r, t') ∧ Inv t' := by
+  obtain ⟨c, hc⟩ := checkTag_total t h n
+  obtain ⟨t1, h1, hinv1, _⟩ := add_general t h n d
+  unfold setTag
+  by_cases h0 : t.length = 0
+  · simp only [h0, ne_eq, not_true_eq_false, if_false, Outcome.pure_eq, Outcome.bind_ok, h1, Bool.false_eq_true]
+    exact ⟨0, t1, rfl, hinv1⟩
+  · simp only [h0, ne_eq, not_false_eq_true, if_true, hc, Outcome.bind_ok, Outcome.pure_eq, h1]
+    by_cases hpos : c > 0
+    · obtain ⟨r, t2, h2, hinv2⟩ := C05_remove_wf t1 hinv1 n
+      simp only [hpos, decide_true, if_true]
+      exact ⟨r, t2, h2, hinv2⟩
+    · simp only [hpos, decide_false, Bool.false_eq_true, if_false]
+      exact ⟨0, t1, rfl, hinv1⟩
+
 theorem step_inv (t : Tags) (h : Inv t) (op : TagOp) : ∃ r t', stepTag t op = .ok (r, t') ∧ Inv t' := by
   cases op with
   | add n d =>
@@ -228,32 +285,8 @@ theorem step_inv (t : Tags) (h : Inv t) (op : TagOp) : ∃ r t', stepTag t op = 
   | remove n =>
     obtain ⟨r, t', h1, h2⟩ := C05_remove_wf t h n
     exact ⟨r, t', by simp [stepTag, h1], h2⟩
-  | setSsid d =>
-    simp only [stepTag, setTag]
-    by_cases h0 : t.length = 0
-    · obtain ⟨t', h1, h2, _⟩ := add_general t h 0 d
-      exact ⟨0, t', by simp [h0, h1], h2⟩
-    · obtain ⟨r, t1, hr, hinv1⟩ := C05_remove_wf t h 0
-      simp only [h0, ne_eq, not_false_eq_true, if_true, hr]
-      by_cases hr0 : r = 0
-      · subst hr0
-        obtain ⟨t', h1, h2, _⟩ := add_general t1 hinv1 0 d
-        exact ⟨0, t', by simp [h1], h2⟩
-      · refine ⟨r, t1, ?_, hinv1⟩
-        split <;> simp_all
-  | setChannel c =>
-    simp only [stepTag, setTag]
-    by_cases h0 : t.length = 0
-    · obtain ⟨t', h1, h2, _⟩ := add_general t h 3 [c]
-      exact ⟨0, t', by simp [h0, h1], h2⟩
-    · obtain ⟨r, t1, hr, hinv1⟩ := C05_remove_wf t h 3
-      simp only [h0, ne_eq, not_false_eq_true, if_true, hr]
-      by_cases hr0 : r = 0
-      · subst hr0
-        obtain ⟨t', h1, h2, _⟩ := add_general t1 hinv1 3 [c]
-        exact ⟨0, t', by simp [h1], h2⟩
-      · refine ⟨r, t1, ?_, hinv1⟩
-        split <;> simp_all
+  | setSsid d => simpa [stepTag] using set_inv t h 0 d
+  | setChannel c => simpa [stepTag] using set_inv t h 3 [c]
   | check n =>
     obtain ⟨es, hes, rfl, hpe⟩ := inv_cases t h
     simp only [stepTag, checkTag, List.take_length]
